@@ -45,14 +45,19 @@ St0(t) == [shadow |-> t.init, lastW |-> t.t0, nW |-> 0, maxU |-> 0, hasU |-> FAL
            tokm |-> 2 * t.maxtok * One, mxm |-> 2 * t.maxtok * One, tsm |-> t.t0, dropm |-> {},   \* drift (mqtt): model of the code's bucket
            tok |-> 2 * t.maxtok * One, mx |-> 2 * t.maxtok * One, lastP |-> t.t0]
 
+\* "one frame per write already pending": the allowance of a write grows with every frame pending next to it; with
+\* hundreds of concurrent callers the sum leaves TLC's 32-bit integers, so it saturates (at ~250 frames' worth, far
+\* beyond where the clause could still bite)
+SatMax == 2000000000
+Sat(a, b) == IF a >= SatMax - b THEN SatMax ELSE a + b
 RECURSIVE SumBits(_)
-SumBits(q) == IF q = <<>> THEN 0 ELSE Head(q).bits + SumBits(Tail(q))
+SumBits(q) == IF q = <<>> THEN 0 ELSE Sat(SumBits(Tail(q)), Head(q).bits)
 IdxOf(q, id) == IF \E i \in 1..Len(q) : q[i].id = id THEN CHOOSE i \in 1..Len(q) : q[i].id = id ELSE 0
 Remove(q, i) == [j \in 1..(Len(q) - 1) |-> IF j < i THEN q[j] ELSE q[j + 1]]
 
 (* ---------------------------------------------------------------------------------- serial, contract *)
 SerialCall(t, e, s) ==
-  [s EXCEPT !.pend = Append([j \in 1..Len(s.pend) |-> [s.pend[j] EXCEPT !.slack = @ + e.bits]],
+  [s EXCEPT !.pend = Append([j \in 1..Len(s.pend) |-> [s.pend[j] EXCEPT !.slack = Sat(@, e.bits)]],
                             [id |-> e.id, bits |-> e.bits, slack |-> SumBits(s.pend), t |-> e.t])]
 
 SerialWriteFail(t, e, s) ==
